@@ -110,9 +110,18 @@ func onceCode(c string) bool { return c == "TONL01" || c == "PKGO01" }
 
 // expectedIg computes the reference diagnostic set of a variant from the base diagnostics.
 func expectedIg(b *e1.IgBase, base []baseDiag, v *e1.IgVariant, tokens []string) []string {
+	return expectedIgScopes(b, base, v, tokens, nil)
+}
+
+// expectedIgScopes is expectedIg with an additional scope predicate (in VARIANT line numbers of v): the
+// suppressed region is the union of v's reference scope and extra.
+func expectedIgScopes(b *e1.IgBase, base []baseDiag, v *e1.IgVariant, tokens []string, extra func(fi, vline int) bool) []string {
 	var exp []string
 	suppressed := func(fi, vline int, code string) bool {
-		return tokens != nil && v.InScope(fi, vline) && ignoreMatches(tokens, code)
+		if tokens == nil || !ignoreMatches(tokens, code) {
+			return false
+		}
+		return v.InScope(fi, vline) || (extra != nil && extra(fi, vline))
 	}
 	for _, d := range base {
 		if onceCode(d.code) {
@@ -162,7 +171,7 @@ func C07(tier common.Tier) int {
 	run.SetRule("state = (base program, diagnostic d of the base, placement of one @ignore comment relative to d, code list). Each state is rendered and analysed by the real analyzers; the observed set must equal base minus {diagnostics inside the reference scope (computed from go/parser on the variant: file / declaration span / statement span incl. nested block / the single line) that match the list by ALL>category>code}, with TONL01/PKGO01 moving to the next unsuppressed use. Non-trivial = the reference removes or moves at least one diagnostic.",
 		"all diagnostics of the base programs (16 codes; statement-start and mid-statement anchors; function level, nested, package level; declaring and using package; two files) x 9 placements x 17 code lists")
 	run.Assume("base verdicts are judged by C01-C05; here only the difference is judged", "scopes follow the property statement: file / following declaration / following statement / own line")
-	run.NotJudged("a stand-alone comment that is the last thing in a block", "stand-alone comments before struct fields, case clauses or specs inside a grouped declaration", "two @ignore comments with overlapping scopes")
+	run.NotJudged("a stand-alone comment that is the last thing in a block", "stand-alone comments before struct fields, case clauses or specs inside a grouped declaration")
 	bases := e1.IgBases()
 	common.Sharded(run, common.NumWorkers(), func(run *common.Run, sh common.Shard) {
 		idx := 0
@@ -269,6 +278,43 @@ func C07(tier common.Tier) int {
 								Summary: fmt.Sprintf("`// @ignore%s` placed %s relative to the %s at %s:%d (%s): diagnostics that should remain but vanished %v; diagnostics that should vanish (or not appear) but are reported %v",
 									l.text, pl, d.code, b.Files[d.file].Name, d.line, level, missing, extra),
 								Detail: map[string]any{"variant": v.Desc, "want": want, "got": gk, "program": nb.Program().Text()}})
+						}
+						// two comments with the same token and nested scopes: a trailing one on an earlier line of the same
+						// declaration plus the stand-alone one before the declaration; the suppressed region is the union
+						if pl == e1.PlDecl && l.tokens != nil && (l.name == "own-code" || l.name == "category" || l.name == "ALL") {
+							if fi, err := e1.ParseInfo(b.Files[d.file].Src()); err == nil {
+								ds, _ := fi.DeclSpan(d.line)
+								inner := 0
+								for ln := ds + 1; ln < d.line; ln++ {
+									t := strings.TrimSpace(b.Files[d.file].Lines[ln-1].Text)
+									if t != "" && !strings.HasPrefix(t, "//") && !strings.Contains(t, "//") && t != "}" && t != ")" && t != "{" {
+										inner = ln
+										break
+									}
+								}
+								if inner > 0 {
+									if _, nb1, ok1 := e1.MakeVariant(b, d.file, inner, e1.PlTrail, "// @ignore"+l.text); ok1 {
+										if v2, nb2, ok2 := e1.MakeVariant(nb1, d.file, d.line, e1.PlDecl, "// @ignore"+l.text); ok2 {
+											got2, r2 := runIg(nb2)
+											var gk2 []string
+											for _, g := range got2 {
+												gk2 = append(gk2, fmt.Sprintf("%s:%d:%s", nb2.Files[g.file].Name+"@"+nb2.Files[g.file].Pkg, g.line, g.code))
+											}
+											sort.Strings(gk2)
+											innerV := v2.MapLine(d.file, inner)
+											want2 := expectedIgScopes(b, base, v2, l.tokens, func(f, vl int) bool { return f == d.file && vl == innerV })
+											run.State(2, strings.Join(gk2, "|"), fmt.Sprintf("nested|%s|%d|%d|%s", b.Name, d.file, d.line, l.name))
+											if strings.Join(gk2, "|") != strings.Join(want2, "|") || r2.Panic != "" {
+												missing, extra := diffKeys(want2, gk2)
+												run.Report(common.Cex{Sig: fmt.Sprintf("ignore-nested|list=%s|code=%s|nmissing=%d|nextra=%d", l.name, d.code, len(missing), len(extra)),
+													Summary: fmt.Sprintf("two `// @ignore%s` comments with nested scopes (trailing on line %d, stand-alone before the declaration containing the %s at %s:%d): should remain but vanished %v; should vanish but reported %v %s",
+														l.text, inner, d.code, b.Files[d.file].Name, d.line, missing, extra, r2.Panic),
+													Detail: map[string]any{"want": want2, "got": gk2, "program": nb2.Program().Text()}})
+											}
+										}
+									}
+								}
+							}
 						}
 						if idx%1009 == 1 {
 							run.Sample(map[string]any{"base": b.Name, "target": fmt.Sprintf("%s:%d:%s", b.Files[d.file].Name, d.line, d.code), "placement": string(pl), "comment": "// @ignore" + l.text})
